@@ -70,11 +70,12 @@ def generate(check, rng, tier, run_index):
         p = rng.below(npaths)
         kind = rng.weighted([('save', 10), ('open_w', 5), ('read', 6)])
         if kind == 'save':
-            ops.append({'op': 'save', 'p': p, 'frames': rng.weighted([(1, 4), (2, 3), (3, 2), (rng.randint(4, 12), 2), (10, 1)]),
-                        'fo': rng.chance(0.5), 'seed': rng.below(1 << 20)})
+            # zero frames: what a selection like t[t.time > tmax] hands to save() when nothing matches
+            ops.append({'op': 'save', 'p': p, 'frames': rng.weighted([(1, 8), (2, 6), (3, 4), (rng.randint(4, 12), 4), (10, 2), (0, 1)]),
+                        'fo': rng.chance(0.5), 'seed': rng.below(1 << 20), 'fo_as': rng.weighted([('bool', 5), ('np', 2), ('int', 1)])})
         elif kind == 'open_w':
             ops.append({'op': 'open_w', 'p': p, 'fo': rng.chance(0.5), 'then': rng.choice(['close', 'write_close', 'write_close']),
-                        'frames': rng.randint(1, 3), 'seed': rng.below(1 << 20)})
+                        'frames': rng.randint(1, 3), 'seed': rng.below(1 << 20), 'fo_as': rng.weighted([('bool', 5), ('np', 2), ('int', 1)])})
         else:
             ops.append({'op': 'read', 'p': p, 'how': rng.choice(['load', 'load_frame', 'iterload', 'open_read', 'load_topology', 'cursor'])})
     return {'check': check, 'paths': paths, 'ops': ops, 'seed': rng.below(1 << 30), 'relative': rng.chance(0.3),
@@ -133,7 +134,7 @@ def _traj(n_frames, seed):
 
 def _targets(path, ext, n_frames):
     """paths a save of n_frames writes"""
-    if ext in RESTART and n_frames > 1:
+    if ext in RESTART and n_frames != 1:        # zero frames: no file at all
         fmt = '%s.%%0%dd' % (path, len(str(n_frames)))
         return [fmt % (i + 1) for i in range(n_frames)]
     return [path]
@@ -167,6 +168,11 @@ def _same_as_fresh(root, fresh_root, rels_pairs):
             ba = f.read()
         with open(b, 'rb') as f:
             bb = f.read()
+        if a.lower().endswith('.dcd') and len(ba) >= 260 and len(bb) >= 260:
+            # the two 80-character remark lines of the DCD header (bytes 100..259) are padded by the writer with whatever was
+            # in its buffer (not initialised): they carry no trajectory content and are left out of the comparison
+            ba = ba[:100] + b'\0' * 160 + ba[260:]
+            bb = bb[:100] + b'\0' * 160 + bb[260:]
         if ba != bb:
             diffs.append((os.path.basename(a), 'bytes', len(ba), len(bb)))
     return diffs
@@ -263,16 +269,20 @@ def _execute(check, case, workdir):
             res.probe('path_given_as_pathlib_object')
         before = snapshot(root)
         kind = op['op']
+        # the flag as the caller has it: a bool, the numpy bool a comparison returns, or an int
+        fo_val = {'np': np.bool_(op.get('fo', False)), 'int': int(op.get('fo', False))}.get(op.get('fo_as'), bool(op.get('fo', False)))
+        if op.get('fo_as') in ('np', 'int'):
+            res.probe('overwrite_flag_not_a_python_bool')
         if kind == 'save':
             n = op['frames']
             t = _traj(n, op['seed'])
             targets = _targets(p, ext, n)
             exists = [x for x in targets if os.path.lexists(x)]
             pre_kind = 'fresh' if not exists else ('valid' if state[op['p']]['valid'] else 'nonvalid')
-            flags = 'fo=%d,%s,%s' % (op['fo'], 'multi' if n > 1 else 'single', pre_kind)
+            flags = 'fo=%d,%s,%s' % (op['fo'], 'multi' if n > 1 else ('single' if n else 'empty'), pre_kind)
             err = None
             try:
-                t.save(pa, force_overwrite=op['fo'])
+                t.save(pa, force_overwrite=fo_val)
             except Exception as e:
                 err = e
             after = snapshot(root)
@@ -330,9 +340,13 @@ def _execute(check, case, workdir):
             others = content_diff({k: v for k, v in before.items() if k not in mine}, after)
             if others:
                 viol('save', 'other_entry_modified', {'changed': others[:5]}, stepno, flags)
-            state[op['p']] = {'valid': True, 'n': n if ext not in RESTART else (1 if n == 1 else state[op['p']]['n'])}
-            if ext in RESTART and n > 1:
-                state[op['p']]['valid'] = state[op['p']]['valid'] and os.path.exists(p)
+            was_valid = state[op['p']]['valid']
+            state[op['p']] = {'valid': n > 0, 'n': n if ext not in RESTART else (1 if n == 1 else state[op['p']]['n'])}
+            if n == 0:
+                res.probe('zero_frame_save')
+            if ext in RESTART and n != 1:
+                # the numbered files were written (or nothing at all): what is at the plain name stays what it was
+                state[op['p']]['valid'] = was_valid and os.path.exists(p)
         elif kind == 'open_w':
             exists = os.path.lexists(p)
             pre_kind = 'fresh' if not exists else ('valid' if state[op['p']]['valid'] else 'nonvalid')
@@ -345,7 +359,7 @@ def _execute(check, case, workdir):
                     w = e2_writer.Writer.__new__(e2_writer.Writer)
                     w.md, w.fmt, w.path, w.top, w.h, w.n_models = md, wfmt, p, top, None, 0
                     kw = {'n_atoms': N_ATOMS} if wfmt == 'mdcrd' else {}
-                    w.h = md.open(po, 'w', force_overwrite=op['fo'], **kw)
+                    w.h = md.open(po, 'w', force_overwrite=fo_val, **kw)
                     try:
                         if op['then'] == 'write_close':
                             x, tm, L, A = fmts.tagged_arrays(op['frames'], N_ATOMS, 'ortho', op['seed'])
@@ -357,7 +371,7 @@ def _execute(check, case, workdir):
                     finally:
                         w.close()
                 else:
-                    h = md.open(po, 'w', force_overwrite=op['fo'])
+                    h = md.open(po, 'w', force_overwrite=fo_val)
                     try:
                         if op['then'] == 'write_close':
                             x, tm, L, A = fmts.tagged_arrays(1, N_ATOMS, 'ortho', op['seed'])
